@@ -89,3 +89,48 @@ type Locker = stdsync.Locker
 func OnceValue[T any](f func() T) func() T { return stdsync.OnceValue(f) }
 
 func OnceValues[T1, T2 any](f func() (T1, T2)) func() (T1, T2) { return stdsync.OnceValues(f) }
+
+// Pool replaces sync.Pool.  The real pool is per-P and hands out objects in
+// an order no harness controls; here it is a plain LIFO free list (the most
+// recently returned object is handed out first, which is also what the real
+// pool does on one P), so that under the scheduler the same schedule always
+// sees the same objects, and an object returned too early is observably
+// reused by the next Get.  Get and Put are scheduling points.
+type Pool struct {
+	New func() any
+
+	mu   stdsync.Mutex
+	free []any
+}
+
+func (p *Pool) Get() any {
+	if vrt.GetMode() == vrt.Scheduled {
+		vrt.Yield("Pool.Get")
+	}
+	p.mu.Lock()
+	if n := len(p.free); n > 0 {
+		x := p.free[n-1]
+		p.free = p.free[:n-1]
+		p.mu.Unlock()
+		return x
+	}
+	p.mu.Unlock()
+	if p.New != nil {
+		return p.New()
+	}
+	return nil
+}
+
+func (p *Pool) Put(x any) {
+	if x == nil {
+		return
+	}
+	if vrt.GetMode() == vrt.Scheduled {
+		vrt.Yield("Pool.Put")
+	}
+	p.mu.Lock()
+	if len(p.free) < 64 {
+		p.free = append(p.free, x)
+	}
+	p.mu.Unlock()
+}
